@@ -69,6 +69,13 @@ def class_source(cs):
         body += (f"    def __hash__(self):\n"
                  f"        return hash(({name!r}, {tup}))\n")
         return f"@expr_dataclass(hash=False)\nclass {name}({base}):\n{body}"
+    if kind == "dc_noinit":
+        # decorated with init=False: a hand-written constructor
+        body = "".join(f"    {f}: object\n" for f in fields)
+        args = ", ".join(fields)
+        sets = "".join(f"        object.__setattr__(self, {f!r}, {f})\n" for f in fields)
+        body += f"    def __init__(self, {args}):\n{sets}"
+        return f"@expr_dataclass(init=False)\nclass {name}(Expression):\n{body}"
     if kind == "legacy_sub":
         # undecorated subclass of a decorated class
         allf = cs["all_fields"]
@@ -112,6 +119,10 @@ def make_user_classes(specs):
         src = class_source(cs)
         exec(compile(src, f"<user class {cs['name']}>", "exec"), ns)
         cls = ns[cs["name"]]
+        if cs.get("pyname"):
+            # two unrelated classes that happen to share their __name__ (two packages each
+            # defining `Tagged`); __qualname__ stays unique so pickle finds the right one
+            cls.__name__ = cs["pyname"]
         cls.__module__ = "dst_dyn"
         out[cs["name"]] = cls
     return out
@@ -123,7 +134,13 @@ def gen_user_classes(r):
     decorated = []   # (name, all_fields)
     for k in range(n):
         name = f"U{k}"
-        kind = r.choice(["dc", "dc", "dc_nohash", "legacy_sub", "legacy_sub", "pure_legacy"])
+        kind = r.choice(["dc", "dc", "dc_nohash", "dc_noinit", "legacy_sub", "legacy_sub",
+                         "pure_legacy"])
+        if kind == "dc_noinit":
+            fields = USER_FIELD_NAMES[:r.randint(1, 2)]
+            specs.append({"name": name, "kind": kind, "base": None, "fields": fields,
+                          "all_fields": fields})
+            continue
         if kind in ("dc", "dc_nohash"):
             if decorated and r.random() < 0.5:
                 base, basef = r.choice(decorated)
@@ -151,8 +168,12 @@ def gen_user_classes(r):
                           "all_fields": basef + fields})
         else:
             fields = USER_FIELD_NAMES[:r.randint(1, 3)]
+            dup = r.random() < 0.35
             specs.append({"name": name, "kind": kind, "base": None, "fields": fields,
-                          "all_fields": fields})
+                          "all_fields": fields, "pyname": "Tagged" if dup else None})
+            if dup:
+                specs.append({"name": name + "b", "kind": kind, "base": None, "fields": fields,
+                              "all_fields": fields, "pyname": "Tagged"})
     return specs
 
 # }}}
@@ -346,6 +367,8 @@ def generate(seed, tier):
         kinds_of[cs["name"]] = _field_kinds_for(cs["all_fields"], bk)
         extra_fields[cs["name"]] = kinds_of[cs["name"]]
         classes += [cs["name"]] * 3
+    dup_pairs = [(cs["name"][:-1], cs["name"]) for cs in ucs
+                 if cs.get("pyname") and cs["name"].endswith("b")]
     pool = []
     g = _Gen(r, classes=classes, max_depth=r.choice([1, 2, 2, 3, 4]), pool=pool,
              idents=["x", "y", "z"], p_ref=0.2, p_fresh=0.1, p_leaf=0.35,
@@ -375,6 +398,11 @@ def generate(seed, tier):
                 # unequal, but with an equal hash: class swapped among same-shape classes
                 t = spec.collide_variant(r, base)
                 kind = "collide"
+                if dup_pairs and base[0] == "n" and r.random() < 0.7:
+                    # ... or the same fields in the namesake class
+                    for a, b in dup_pairs:
+                        if base[1] in (a, b):
+                            t = ["n", b if base[1] == a else a, base[2]]
             elif x < 0.7:
                 t = _mutate_one_field(r, base, g)
                 kind = "near"
@@ -443,7 +471,9 @@ def generate(seed, tier):
             return ["pickle", r.choice(names), r.randint(0, 5)]
         if k == "map":
             return ["map", r.choice(["identity", "dependency", "str", "repr", "evaluate",
-                                     "substitute", "flatten", "force"]), r.choice(names)]
+                                     "substitute", "flatten", "force", "wrap_in_cse",
+                                     "make_cse", "operators", "flattened", "tag_cse",
+                                     "persistent_hash", "nodecount"]), r.choice(names)]
         if k in ("rebind", "delete"):
             return [k, r.choice(names), r.randint(0, 3),
                     r.choice([["i", 99], ["s", "zz"], ["n", "Variable", [["s", "q"]]]])]
@@ -527,6 +557,22 @@ def execute(scenario, open_sigs):
     import pickle
 
     import pymbolic.primitives as p
+
+    # everything an op may import is imported now: a thread parked by the scheduler while it
+    # holds an import lock would stall every other thread that needs the same module
+    import hashlib  # noqa: F401
+    import pymbolic.cse  # noqa: F401
+    import pymbolic.geometric_algebra  # noqa: F401
+    import pymbolic.mapper.analysis  # noqa: F401
+    import pymbolic.mapper.dependency  # noqa: F401
+    import pymbolic.mapper.evaluator  # noqa: F401
+    import pymbolic.mapper.flattener  # noqa: F401
+    import pymbolic.mapper.persistent_hash  # noqa: F401
+    import pymbolic.mapper.stringifier  # noqa: F401
+    import pymbolic.mapper.substitutor  # noqa: F401
+    import pymbolic.rational  # noqa: F401
+    import pymbolic.traits  # noqa: F401
+    import pytools  # noqa: F401
 
     cfg = scenario["config"]
     ucs = cfg.get("user_classes", [])
@@ -859,6 +905,29 @@ def execute(scenario, open_sigs):
             elif kind == "flatten":
                 from pymbolic.mapper.flattener import flatten
                 flatten(o)
+            elif kind == "wrap_in_cse":
+                p.wrap_in_cse(o, "nm")
+                p.wrap_in_cse(o)
+            elif kind == "make_cse":
+                p.make_common_subexpression(o, "nm", p.cse_scope.EXPRESSION)
+                p.make_common_subexpression(o, "nm")
+            elif kind == "operators":
+                (o + 1, 2 * o, o - o, -o, o / 3, o ** 2, o[0], o(1, k=2), o.attr("a"),
+                 o.eq(o), o.not_(), abs(o))
+            elif kind == "flattened":
+                p.flattened_sum([o, o + 1, 0])
+                p.flattened_product([o, 1, o * 2])
+                p.quotient(o, 3)
+            elif kind == "tag_cse":
+                from pymbolic.cse import tag_common_subexpressions
+                tag_common_subexpressions([o + o, o * 2, o])
+            elif kind == "persistent_hash":
+                import hashlib
+                from pymbolic.mapper.persistent_hash import PersistentHashWalkMapper
+                PersistentHashWalkMapper(hashlib.sha256())(o)
+            elif kind == "nodecount":
+                from pymbolic.mapper.analysis import get_num_nodes
+                get_num_nodes(o)
         except InjectedInterrupt:
             raise
         except RecursionError:
